@@ -768,8 +768,16 @@ func TestVerifNetMsgDec(t *testing.T) {
 // vnCrafted: "crafted length prefixes" with controlled sizes: one extrinsic declaring 2^20 / 2^22 bytes.
 func vnCrafted(res *vResult, decs map[string]vnDecoder) {
 	for _, ty := range []string{"txmsg", "body"} {
+		// a huge declared LENGTH of the first element, and a huge declared COUNT of elements (below every constant cap a
+		// decoder may have: what bounds the work is the number of bytes received)
+		var inputs [][]byte
 		for _, head := range [][]byte{{2, 0, 64, 0}, {2, 0, 0, 1}} {
-			b := append(append([]byte{4}, head...), 1, 2, 3)
+			inputs = append(inputs, append(append([]byte{4}, head...), 1, 2, 3))
+		}
+		for _, count := range [][]byte{{2, 0, 0, 4}, {2, 0, 0, 1}, {2, 0, 64, 0}, {254, 255, 255, 3}} {
+			inputs = append(inputs, append([]byte{}, count...), append(append([]byte{}, count...), 4, 9), append(append([]byte{}, count...), 4, 9, 4, 9, 4, 9, 4, 9))
+		}
+		for _, b := range inputs {
 			raw := json.RawMessage(vJSON([]any{map[string]any{"o": map[string]any{"op": "crafted", "ty": ty, "b": b}}}))
 			res.Case("crafted/"+ty, vHex(b))
 			m, err, pm, to, alloc := vnGuarded(decs[ty].decode, b)
